@@ -342,5 +342,79 @@ fn stub_backtrace_c12() -> std::backtrace::Backtrace {
 // over a real HashMap) were withdrawn: on a freshly restored sandbox CBMC did not finish within the
 // harness timeout (hashbrown + tokio RwLock), i.e. the check was UNDECIDED there. The per-peer
 // contract (c12_cleanup_keeps_acceptance_state) still covers PeerCounter::cleanup_old_sequences.
+// ---------------------------------------------------------------------------------------------
+// NATIVE FAILING-INPUT SEARCH for C12 at the level of MonotonicCounterSystem (public async API, real clock):
+// used to attach a concrete history to a failed obligation of the Verus unit `seq` and to decide when that
+// unit cannot (e.g. a statement outside the dialect was added to a critical section).
+// ---------------------------------------------------------------------------------------------
+#[cfg(test)]
+mod search {
+    use super::*;
+
+    fn uid(b: u8) -> UserId {
+        UserId::from_bytes([b; 32])
+    }
+    fn hash(n: u64) -> [u8; 32] {
+        let mut h = [0u8; 32];
+        h[..8].copy_from_slice(&n.to_be_bytes());
+        h
+    }
+
+    #[test]
+    fn verif_search_c12() {
+        let rt = tokio::runtime::Builder::new_current_thread().enable_all().build().expect("runtime");
+        rt.block_on(async {
+            let dir = std::env::temp_dir().join(format!("verif_c12_{}", std::process::id()));
+            let _ = std::fs::create_dir_all(&dir);
+            let sys = MonotonicCounterSystem::new_with_sync_interval(dir.join("counters.bin"), Duration::from_secs(3600)).await.expect("system");
+            let now = current_timestamp();
+            // peer 1: accepts 1,2,3 stamped almost one hour ago (still inside the window); peer 2: fresh numbers
+            let mut reqs = Vec::new();
+            for n in 1..=3u64 {
+                reqs.push(BatchUpdateRequest { user_id: uid(1), sequence: n, message_hash: hash(n), timestamp: now.saturating_sub(3598) });
+            }
+            // the same (peer, number) twice in one batch, and an out-of-order number
+            reqs.push(BatchUpdateRequest { user_id: uid(2), sequence: 1, message_hash: hash(1), timestamp: now });
+            reqs.push(BatchUpdateRequest { user_id: uid(2), sequence: 1, message_hash: hash(1), timestamp: now });
+            reqs.push(BatchUpdateRequest { user_id: uid(2), sequence: 3, message_hash: hash(3), timestamp: now });
+            let res = sys.batch_update(reqs).await.expect("batch");
+            let applied: Vec<bool> = res.iter().map(|r| r.applied).collect();
+            if applied != vec![true, true, true, true, false, false] {
+                panic!("VERIF-SEARCH-HIT C12/system/same_peer_and_number_within_one_batch_accepted_at_most_once applied={:?} for batch [p1:1, p1:2, p1:3, p2:1, p2:1, p2:3]", applied);
+            }
+            // immediate replays and old numbers are never accepted; other peers are unaffected
+            for n in 1..=3u64 {
+                let r = sys.validate_sequence(&uid(1), n, hash(n)).await.expect("validate");
+                if matches!(r, SequenceValidationResult::Valid) {
+                    panic!("VERIF-SEARCH-HIT C12/system/accepted_only_for_the_next_number_never_for_a_seen_one peer=1 number={} accepted again right after the batch", n);
+                }
+            }
+            let before = sys.get_peer_counter(&uid(2)).await.map(|c| c.last_valid_sequence);
+            // let the history of peer 1 age out (its entries are 3598 s old; wait until they pass one hour), then clean up
+            tokio::time::sleep(Duration::from_millis(3200)).await;
+            sys.cleanup_old_sequences().await.expect("cleanup");
+            if sys.get_peer_counter(&uid(1)).await.map(|c| c.last_valid_sequence) != Some(3) {
+                panic!("VERIF-SEARCH-HIT C12/system/cleanup_never_forgets_a_peer_or_its_high_water_mark peer=1 high-water mark 3 lost after cleanup_old_sequences (history aged out)");
+            }
+            if sys.get_peer_counter(&uid(2)).await.map(|c| c.last_valid_sequence) != before {
+                panic!("VERIF-SEARCH-HIT C12/system/peers_never_affect_one_another peer=2 changed by the cleanup / by peer 1's traffic");
+            }
+            for n in [0u64, 1, 2, 3] {
+                for h in [hash(n), hash(n + 100)] {
+                    let r = sys.validate_sequence(&uid(1), n, h).await.expect("validate");
+                    if matches!(r, SequenceValidationResult::Valid) {
+                        panic!("VERIF-SEARCH-HIT C12/system/accepted_only_for_the_next_number_never_for_a_seen_one peer=1 number={} accepted again after its history aged out and cleanup ran", n);
+                    }
+                }
+            }
+            let r = sys.validate_sequence(&uid(1), 4, hash(4)).await.expect("validate");
+            if !matches!(r, SequenceValidationResult::Valid) {
+                panic!("VERIF-SEARCH-HIT C12/seq/next_in_order_accepted_unless_time_window peer=1 number=4 refused: {:?}", r);
+            }
+            let _ = std::fs::remove_dir_all(&dir);
+        });
+    }
+}
+
 #[cfg(test)]
 include!("/verif/.build/replay/monotonic_counter.rs");
